@@ -721,6 +721,81 @@ impl<P: SizedPayload> St<P> {
                 return;
             }
         }
+        if owners == 2 && (160..192).contains(&b) && !P::ZST && peek(&self.slots[i].h).id != tok::NONE && matches!(kind, Kind::Arc | Kind::Off | Kind::Hs) {
+            // Two legal oddities at once: Clone::clone releases the only OTHER owner (it has access to it), so the
+            // handle being detached becomes the last owner of the old value while make_mut is running; and the old
+            // value's destructor, which therefore runs inside make_mut, panics. Afterwards the handle must still
+            // be a valid sole owner of SOME live allocation (the fresh copy), the old value destroyed exactly once
+            // and its block returned.
+            let j = (0..self.slots.len()).find(|&j| j != i && self.slots[j].alloc == ai && matches!(self.slots[j].h.kind(), Kind::Arc | Kind::Off | Kind::Dyn | Kind::Hs | Kind::U1 | Kind::U2));
+            if let Some(j) = j {
+                let old_addr = data_addr(&self.slots[i].h);
+                let old_val = self.allocs[ai].val;
+                let jkind = self.slots[j].h.kind();
+                let other = std::cell::RefCell::new(Some(self.take(j)));
+                let obs = |what: &'static str| {
+                    if what == "clone" {
+                        if let Some(h) = other.borrow_mut().take() {
+                            drop(h);
+                        }
+                    }
+                };
+                tok::drop_panic_at(1);
+                let (r, eff) = {
+                    let hi = &mut self.slots[i].h;
+                    track(|| {
+                        tok::with_observer(&obs, || match hi {
+                            H::Arc(a) => {
+                                if b & 1 == 0 {
+                                    catch_unwind(AssertUnwindSafe(|| Arc::make_mut(a).peekp().val))
+                                } else {
+                                    catch_unwind(AssertUnwindSafe(|| (**Arc::make_unique(a)).peekp().val))
+                                }
+                            }
+                            H::Off(o) => catch_unwind(AssertUnwindSafe(|| o.make_mut().peekp().val)),
+                            H::Hs(h) => catch_unwind(AssertUnwindSafe(|| Arc::make_mut(h).slice.peekp().val)),
+                            _ => Ok(0),
+                        })
+                    })
+                };
+                tok::drop_panic_at(0);
+                let unwound = r.is_err();
+                drop(r);
+                drop(other);
+                // model: both owners of the old allocation are gone
+                self.released(ai, jkind, false);
+                self.released(ai, kind, false);
+                let new_block = eff.allocs.iter().filter(|b| alloc::block_by_seq(b.seq).map(|x| x.live).unwrap_or(false)).last().copied();
+                let now_addr = data_addr(&self.slots[i].h);
+                let in_new = new_block.map(|bl| now_addr >= bl.ptr && now_addr < bl.ptr + bl.size.max(1) + 64).unwrap_or(false);
+                if now_addr == old_addr || !in_new {
+                    viol::report(
+                        &["C07", "C08", "C01"],
+                        "W.dangling-after-unwind",
+                        format!("make_mut on slot {} ({:?}): Clone released the other owner, then the old value's destructor panicked inside the call{}: the handle still points at {:#x} (the old value lived at {:#x}, freed) instead of the fresh copy", i, kind, if unwound { "" } else { " (no unwind reached the caller)" }, now_addr, old_addr),
+                    );
+                    // never touch that handle again
+                    let h = self.take(i);
+                    std::mem::forget(h);
+                    let hi = i.max(j);
+                    let lo = i.min(j);
+                    self.slots.remove(hi);
+                    self.slots.remove(lo);
+                } else {
+                    let p = peek(&self.slots[i].h);
+                    let block = block_for::<P>(now_addr).unwrap_or_else(alloc::Block::none);
+                    let mut kinds = std::collections::BTreeSet::new();
+                    kinds.insert(kind);
+                    self.allocs.push(AllocM { owners: 1, tok_id: p.id, val: old_val, block, data_addr: now_addr, alive: true, moved_out: false, died_step: 0, created_kind: kind, kinds, last_release_kind: None });
+                    let ni = self.allocs.len() - 1;
+                    self.slots[i].alloc = ni;
+                    self.slots.remove(j);
+                }
+                self.facts.drop_panics += 1;
+                self.log(|| format!("make_mut on slot {} ({:?}, alloc #{}): Clone released the other owner (slot {}), the old value's destructor panicked inside the call (unwound: {})", i, kind, ai, j, unwound));
+                return;
+            }
+        }
         let clones_before = tok::clones();
         let (how, eff) = match &mut self.slots[i].h {
             H::Arc(a) => {
